@@ -211,8 +211,26 @@ func (b *BoxLayout) Draw() {
 }
 
 // Size returns the preferred size in character cells (width, height).
+// It is worked out from the children as they are now, not taken from the
+// last layout pass: a box that is itself a child is asked for its size
+// before it has been laid out (it may not even have a view yet).
 func (b *BoxLayout) Size() (int, int) {
-	return b.width, b.height
+	w, h := 0, 0
+	for _, c := range b.cells {
+		cw, ch := c.widget.Size()
+		if b.orient == Horizontal {
+			w += cw
+			if ch > h {
+				h = ch
+			}
+		} else {
+			h += ch
+			if cw > w {
+				w = cw
+			}
+		}
+	}
+	return w, h
 }
 
 // SetView sets the View object used for the text bar.
